@@ -123,6 +123,21 @@ enum Target {
     Area(usize, u32, u32, u32, u32),
     /// 3-D reference error on a sheet
     RefErr(usize),
+    /// 3-D cell reference with relative parts (sheet, row, col, flags: 1 = column relative, 2 = row relative); legal in a
+    /// defined name (`=Sheet1!A1` typed without `$`); row/col are rendered as coordinates (the name used from A1)
+    RefRel(usize, u32, u32, u8),
+    /// 3-D area with relative parts (sheet, r0, c0, r1, c1, flags of the first corner, flags of the second corner)
+    AreaRel(usize, u32, u32, u32, u32, u8, u8),
+}
+
+/// one corner in A1 notation: `$` before an absolute column / row
+fn corner(row: u32, col: u32, flags: u8) -> String {
+    format!("{}{}{}{}", if flags & 1 == 0 { "$" } else { "" }, col_name(col), if flags & 2 == 0 { "$" } else { "" }, row + 1)
+}
+
+/// the 16-bit column field of a BIFF8 / XLSB reference: column, bit 14 = column relative, bit 15 = row relative
+fn col_field(col: u32, flags: u8) -> u16 {
+    (col as u16) | (((flags & 1) as u16) << 14) | ((((flags >> 1) & 1) as u16) << 15)
 }
 
 #[derive(Clone, Debug, PartialEq)]
@@ -180,6 +195,8 @@ impl Case {
                     Target::Ref(s, r, c) => format!("R:{s}:{r}:{c}"),
                     Target::Area(s, a, b, c, d) => format!("A:{s}:{a}:{b}:{c}:{d}"),
                     Target::RefErr(s) => format!("E:{s}"),
+                    Target::RefRel(s, r, c, f) => format!("r:{s}:{r}:{c}:{f}"),
+                    Target::AreaRel(s, a, b, c, d, f0, f1) => format!("a:{s}:{a}:{b}:{c}:{d}:{f0}:{f1}"),
                 };
                 format!("{}:{}", hex(n.name.as_bytes()), t)
             })
@@ -229,6 +246,8 @@ impl Case {
                     "R" => Target::Ref(n(2) as usize, n(3), n(4)),
                     "A" => Target::Area(n(2) as usize, n(3), n(4), n(5), n(6)),
                     "E" => Target::RefErr(n(2) as usize),
+                    "r" => Target::RefRel(n(2) as usize, n(3), n(4), n(5) as u8),
+                    "a" => Target::AreaRel(n(2) as usize, n(3), n(4), n(5), n(6), n(7) as u8, n(8) as u8),
                     x => panic!("bad target {x}"),
                 };
                 LName { name: utf(f[0]), target }
@@ -264,6 +283,8 @@ impl Case {
             Target::Ref(s, r, c) => format!("{}!${}${}", sh(s), col_name(*c), r + 1),
             Target::Area(s, r0, c0, r1, c1) => format!("{}!${}${}:${}${}", sh(s), col_name(*c0), r0 + 1, col_name(*c1), r1 + 1),
             Target::RefErr(s) => format!("{}!#REF!", sh(s)),
+            Target::RefRel(s, r, c, f) => format!("{}!{}", sh(s), corner(*r, *c, *f)),
+            Target::AreaRel(s, r0, c0, r1, c1, f0, f1) => format!("{}!{}:{}", sh(s), corner(*r0, *c0, *f0), corner(*r1, *c1, *f1)),
         }
     }
 
@@ -433,9 +454,17 @@ fn gen_case(fmt: Fmt, rng: &mut Rng) -> Case {
                         _ => rng.range(0, 40.min(m)),
                     }) as u32
                 };
-                match rng.below(5) {
+                // relative parts: the fields hold coordinates (small ones: a 14-bit column field in either format)
+                let maxc_rel = maxc.min(16_383);
+                match rng.below(7) {
                     0 => Target::RefErr(s),
                     1 | 2 => Target::Ref(s, coord(rng, maxr), coord(rng, maxc)),
+                    5 => Target::RefRel(s, coord(rng, maxr), coord(rng, maxc_rel), rng.range(1, 3) as u8),
+                    6 => {
+                        let (r0, r1) = (coord(rng, maxr), coord(rng, maxr));
+                        let (c0, c1) = (coord(rng, maxc_rel), coord(rng, maxc_rel));
+                        Target::AreaRel(s, r0.min(r1), c0.min(c1), r0.max(r1), c0.max(c1), rng.below(4) as u8, rng.below(4) as u8)
+                    }
                     _ => {
                         let (r0, r1) = (coord(rng, maxr), coord(rng, maxr));
                         let (c0, c1) = (coord(rng, maxc), coord(rng, maxc));
@@ -587,7 +616,7 @@ fn build_xls(c: &Case) -> Built {
     let mut referenced: Vec<usize> = vec![];
     for n in &c.names {
         let s = match &n.target {
-            Target::Ref(s, ..) | Target::Area(s, ..) | Target::RefErr(s) => *s,
+            Target::Ref(s, ..) | Target::Area(s, ..) | Target::RefErr(s) | Target::RefRel(s, ..) | Target::AreaRel(s, ..) => *s,
             Target::Text(_) => continue,
         };
         if !referenced.contains(&s) {
@@ -626,6 +655,20 @@ fn build_xls(c: &Case) -> Built {
                 rgce.push(0x3C + class);
                 rgce.extend_from_slice(&ixti_of(s).to_le_bytes());
                 rgce.extend_from_slice(&[0u8; 4]);
+            }
+            Target::RefRel(s, r, col, f) => {
+                rgce.push(0x3A + class);
+                rgce.extend_from_slice(&ixti_of(s).to_le_bytes());
+                rgce.extend_from_slice(&(*r as u16).to_le_bytes());
+                rgce.extend_from_slice(&col_field(*col, *f).to_le_bytes());
+            }
+            Target::AreaRel(s, r0, c0, r1, c1, f0, f1) => {
+                rgce.push(0x3B + class);
+                rgce.extend_from_slice(&ixti_of(s).to_le_bytes());
+                rgce.extend_from_slice(&(*r0 as u16).to_le_bytes());
+                rgce.extend_from_slice(&(*r1 as u16).to_le_bytes());
+                rgce.extend_from_slice(&col_field(*c0, *f0).to_le_bytes());
+                rgce.extend_from_slice(&col_field(*c1, *f1).to_le_bytes());
             }
             Target::Text(_) => unreachable!("text definitions are for xlsx/ods"),
         }
@@ -695,7 +738,7 @@ fn build_xlsb(c: &Case) -> Built {
     let mut referenced: Vec<usize> = vec![];
     for n in &c.names {
         let s = match &n.target {
-            Target::Ref(s, ..) | Target::Area(s, ..) | Target::RefErr(s) => *s,
+            Target::Ref(s, ..) | Target::Area(s, ..) | Target::RefErr(s) | Target::RefRel(s, ..) | Target::AreaRel(s, ..) => *s,
             Target::Text(_) => continue,
         };
         if !referenced.contains(&s) {
@@ -734,6 +777,20 @@ fn build_xlsb(c: &Case) -> Built {
                 rgce.push(0x3C + class);
                 rgce.extend_from_slice(&ixti_of(s).to_le_bytes());
                 rgce.extend_from_slice(&[0u8; 6]);
+            }
+            Target::RefRel(s, r, col, f) => {
+                rgce.push(0x3A + class);
+                rgce.extend_from_slice(&ixti_of(s).to_le_bytes());
+                rgce.extend_from_slice(&r.to_le_bytes());
+                rgce.extend_from_slice(&col_field(*col, *f).to_le_bytes());
+            }
+            Target::AreaRel(s, r0, c0, r1, c1, f0, f1) => {
+                rgce.push(0x3B + class);
+                rgce.extend_from_slice(&ixti_of(s).to_le_bytes());
+                rgce.extend_from_slice(&r0.to_le_bytes());
+                rgce.extend_from_slice(&r1.to_le_bytes());
+                rgce.extend_from_slice(&col_field(*c0, *f0).to_le_bytes());
+                rgce.extend_from_slice(&col_field(*c1, *f1).to_le_bytes());
             }
             Target::Text(_) => unreachable!("text definitions are for xlsx/ods"),
         }
@@ -1160,6 +1217,9 @@ fn features(c: &Case, part: &str) -> String {
     if part == "N" && c.names.iter().any(|n| matches!(n.target, Target::Ref(_, _, col) if col >= 26) || matches!(n.target, Target::Area(_, _, c0, _, c1) if c0 >= 26 || c1 >= 26)) {
         f.push("col>=26".to_string());
     }
+    if part == "N" && c.names.iter().any(|n| matches!(n.target, Target::RefRel(..) | Target::AreaRel(..))) {
+        f.push("relative-ref".to_string());
+    }
     if !c.pre.is_empty() {
         f.push("pre-records".to_string());
     }
@@ -1211,13 +1271,15 @@ fn drop_sheet(c: &Case, i: usize) -> Case {
     d.names = c
         .names
         .iter()
-        .filter(|n| !matches!(&n.target, Target::Ref(s, ..) | Target::Area(s, ..) | Target::RefErr(s) if *s == i))
+        .filter(|n| !matches!(&n.target, Target::Ref(s, ..) | Target::Area(s, ..) | Target::RefErr(s) | Target::RefRel(s, ..) | Target::AreaRel(s, ..) if *s == i))
         .map(|n| LName {
             name: n.name.clone(),
             target: match &n.target {
                 Target::Ref(s, r, col) => Target::Ref(fix(*s), *r, *col),
                 Target::Area(s, a, b, cc, dd) => Target::Area(fix(*s), *a, *b, *cc, *dd),
                 Target::RefErr(s) => Target::RefErr(fix(*s)),
+                Target::RefRel(s, r, col, f) => Target::RefRel(fix(*s), *r, *col, *f),
+                Target::AreaRel(s, a, b, cc, dd, f0, f1) => Target::AreaRel(fix(*s), *a, *b, *cc, *dd, *f0, *f1),
                 t => t.clone(),
             },
         })
@@ -1541,6 +1603,20 @@ fn corpus() -> Vec<Case> {
     c.cdata = true;
     c.names = vec![LName { name: "N1".into(), target: Target::Text("Sheet1!$A$1".into()) }, LName { name: "N2".into(), target: Target::Text("x".into()) }];
     v.push(c);
+    // C16-e: xls parse_defined_names printed `$` always and the unmasked 16-bit column field: a defined name holding a
+    // relative reference (=S1!A1 typed without `$`: column field 0xC000) came back as S1!$BTRM$1
+    let mut c = base(Fmt::Xls);
+    c.names = vec![
+        LName { name: "N1".into(), target: Target::RefRel(0, 0, 0, 3) },
+        LName { name: "N2".into(), target: Target::AreaRel(0, 1, 2, 3, 4, 1, 2) },
+    ];
+    v.push(c);
+    let mut c = base(Fmt::Xlsb);
+    c.names = vec![
+        LName { name: "N1".into(), target: Target::RefRel(0, 0, 0, 3) },
+        LName { name: "N2".into(), target: Target::AreaRel(0, 1, 2, 3, 4, 1, 2) },
+    ];
+    v.push(c);
     // D35: a 16-bit Lbl name of two characters was read as one
     let mut c = base(Fmt::Xls);
     c.names = vec![LName { name: "Жы".into(), target: Target::Ref(0, 0, 0) }];
@@ -1590,7 +1666,7 @@ fn main() {
         "C16",
         "one case = one logical workbook (0-12 sheets with unique names of 1-31 UTF-16 units drawn from ASCII, XML specials, Latin-1, BMP and non-BMP characters, \
          excluding the characters Excel forbids in sheet names and NUL, sometimes with a leading U+FEFF; every visibility x kind the format expresses; 0-10 defined names: text for \
-         xlsx/ods, absolute PtgRef3d/PtgArea3d/PtgRefErr3d for xls/xlsb; both date systems, in every sheet one date-styled cell of every numeric record kind and encoding (xls: NUMBER, RK x4, MULRK, FORMULA; xlsb: BrtCellReal, BrtCellRk x4, BrtFmlaNum; xlsx: number, whole number, formula with cached number), each checked for the flag; xlsx: in half of the cases an extLst with foreign-namespace elements whose local names are workbookPr / definedName / sheet) written under a random layout; non-trivial = at \
+         xlsx/ods, PtgRef3d/PtgArea3d (absolute, and with relative row/column parts rendered without `$`)/PtgRefErr3d for xls/xlsb; both date systems, in every sheet one date-styled cell of every numeric record kind and encoding (xls: NUMBER, RK x4, MULRK, FORMULA; xlsb: BrtCellReal, BrtCellRk x4, BrtFmlaNum; xlsx: number, whole number, formula with cached number), each checked for the flag; xlsx: in half of the cases an extLst with foreign-namespace elements whose local names are workbookPr / definedName / sheet) written under a random layout; non-trivial = at \
          least one sheet and (several sheets, a defined name, or a non-default visibility/kind); \
          about 4% of the xls / ods cases carry an out-of-specification detail (DATEMODE = 2; a style name defined twice) on which only implementation and model are compared; unit cases = BoundSheet8 payloads (all 65536 hsState x dt byte pairs, random and truncated strings)",
     );
